@@ -10,7 +10,7 @@ LEAN_TB = [
 ]
 
 STORAGE_ASSUME = [
-    "BaseStorage behaves as a map and a failing call has no effect (caller-supplied component)",
+    "the Ledger / BaseStorage behaves as a map on NON-EMPTY registers and a failing call has no effect (caller-supplied component); LedgerBaseStorage reads a zero-length register as absent (modelled, SlabIdB.lbs_step_refines) and the real codec never writes one (SlabIdB.real_codec_register_nonempty)",
     "EncodeSlab/DecodeSlab round-trip (RoundTrip hypothesis; discharged for the real codec by C07's tie)",
     "value-level model: pointer aliasing between deltas, cache and container handles is not modelled",
     "goroutine scheduling of the encoder/decoder pools is abstracted to arrival order (see C16)",
@@ -68,7 +68,7 @@ PROPS = {
         "explanation": "Theorems: decode_never_panics (every Go slice expression / fixed-offset read / make is transcribed with its bounds condition; a violated condition is a distinct 'panic' outcome, proved unreachable for ALL byte strings), header_queries_total, alloc_linear (allocations <= input length), accessors_total; termination by structural recursion. Tie: outcome class (ok+dump / error / panic) equal on every mutated register. Oracle: recover + 2 s watchdog + ByteSize/ChildStorables on accepted slabs.",
     },
     "C09": {
-        "streams": ["array", "persist", "nested", "mapcollide"], "driver": {"array": "array", "persist": "array", "nested": "world", "mapcollide": "map"}, "level": "proof",
+        "streams": ["array", "persist", "nested", "mapcollide", "slabid"], "driver": {"array": "array", "persist": "array", "nested": "world", "mapcollide": "map", "slabid": "slabid"}, "level": "proof",
         "trusted_base": LEAN_TB, "assumptions": ARRAY_ASSUME + NEST_ASSUME + [
             "Lean obligations are the ARRAY container level (effects_complete, pop_releases_all, tree_ownership, allocated_ids_fresh); maps, collision-group slabs and inline<->standalone transitions are tied by the per-operation comparison of the net SlabStorage effect (EFF lines) and checked on the implementation by CheckStorageHealth with the exact expected root count",
             "the caller disposes of what the library hands back (the harness removes returned large-value slabs: DSP lines)"],
@@ -76,7 +76,7 @@ PROPS = {
         "explanation": "Theorems: insert/set/remove_effects_complete (every slab whose content changed was stored, every slab that left the tree was removed, nothing else touched), pop_releases_all (emptying releases every slab but the root), tree_ownership (no slab owned twice, all under one address), allocated_ids_fresh. Graph level: C20. Oracle: storage health with exact root count.",
     },
     "C10": {
-        "streams": ["nested", "dualhandle"], "driver": {"nested": "world"}, "level": "proof",
+        "streams": ["nested", "dualhandle", "slabid"], "driver": {"nested": "world", "slabid": "slabid"}, "level": "proof",
         "trusted_base": LEAN_TB, "assumptions": NEST_ASSUME,
         "rule": "nested histories (arrays and maps in arrays and maps, wrapped 0-2 levels, depth up to 7, children growing and shrinking across the inline limit, parents restructured between child operations, commits + reload, commit + reopen + continue with re-fetched handles, handles obtained by lookup and by mutable iteration, byte-granular walks across the inline limit in both directions, PopIterate through child / detached handles with deep disposal, SetType on nested containers, deep removal of everything at the end); plus the dual-handle scenarios; distinct = distinct programs",
         "explanation": "Theorems: storable_inline_decision (inline exactly when a single slab fits the budget left after wrappers; size handed to the parent; value ID kept; storage effect), notify_updates_array_parent, handed_back_is_standalone, value_id_stable (all five operations), elem_sync_childStorable, mutIdx_ok_arrInsert, index_shift_order_independent. Tie: every nested operation replayed on the World model (observations, effects, nested dumps). Oracle: deep read-back through the outermost container, VerifyArray/VerifyMap, reload after commit.",
@@ -116,7 +116,7 @@ PROPS = {
         "explanation": "Theorems: limit_refuses_new_key, limit_allows_update_and_room (refusal exactly when the first-level group already holds more than the limit and the key is new; an error returns no new state), order_canonical (ascending lexicographic digest order, full collisions in insertion order); group shapes (inline group born with two keys, exported to an external slab exactly when a first-level group exceeds the element limit, collapsed to a single element, insertion-ordered list when digests are exhausted) are part of ElemsInv, preserved by C02's theorems. Oracle: Go map + VerifyMap + no storage effect after a refusal.",
     },
     "C03": {
-        "streams": ["persist", "mpersist", "storage", "nested"], "driver": {"persist": "array", "mpersist": "map", "storage": "storage", "nested": "world"}, "level": "proof",
+        "streams": ["persist", "mpersist", "storage", "nested", "slabid"], "driver": {"persist": "array", "mpersist": "map", "storage": "storage", "nested": "world", "slabid": "slabid"}, "level": "proof",
         "trusted_base": LEAN_TB, "assumptions": STORAGE_ASSUME + ARRAY_ASSUME + [
             "container level: the array model's effect log is validated against the real SlabStorage call sequence on every operation; the map model likewise in C02's streams",
             "the codec round trip used by commit_durable_on_reopen is a hypothesis here (C07)"],
@@ -124,12 +124,12 @@ PROPS = {
         "explanation": "Theorems (storage level): only_commit_touches_ledger, uncommitted_never_reaches_ledger, commit_durable_on_reopen, crash_recovers_last_commit, temp_never_written + the regenerated fact that only the commit functions call BaseStorage.Store/Remove. Tie: the composition array model + storage state machine reproduces every register (decoded dump) after every commit and the reopened tree after every crash. Oracle: reload on a fresh storage vs a shadow slice; ledger call log empty between commits.",
     },
     "C04": {
-        "streams": ["determ", "storage", "map"], "driver": {"storage": "storage", "map": "map"}, "level": "proof",
+        "streams": ["determ", "storage", "map", "slabid"], "driver": {"storage": "storage", "map": "map", "slabid": "slabid"}, "level": "proof",
         "trusted_base": LEAN_TB, "assumptions": STORAGE_ASSUME + [
             "NOT exhibited by the model (exercised by the harness, not proved): real goroutine scheduling, Go's randomised map iteration, sync.Pool reuse, process identity",
             "the map seed is an uninterpreted function of the root slab ID in the model; the harness recomputes circlehash(address, index) independently"],
-        "rule": "scripts of 300 array+map operations with commits, each executed under GOMAXPROCS {1,4,16} x workers {1,2,3,8,64} x {FastCommit, NondeterministicFastCommit} x ledger scheduling jitter and once in a fresh child process; distinct = distinct final ledgers",
-        "explanation": "Theorems: fastcommit_order_sorted (ascending (owner,index) call order for every write set and fault plan), lt_strict_total, fastcommit_schedule_invariant (any worker count, any finishing schedule = sequential), nondet_commit_same_final_ledger (same ledger, call multiset equal), source_premises (worker closures write-free, pools reset before Put; regenerated). Oracle: byte-identical registers, identical observations and ordered call logs across all configurations and a fresh process.",
+        "rule": "scripts of 300 array+map operations with commits, each executed under GOMAXPROCS {1,4,16} x workers {1,2,3,8,64} x {FastCommit, NondeterministicFastCommit} x ledger scheduling jitter and once in a fresh child process; distinct = distinct final ledgers; slabid: the real sort of FastCommit's key list on write sets of boundary identifiers (carries across every byte, 2^63, 2^64-1) and SlabID.Compare on thousands of pairs, replayed on the byte-level identifier model",
+        "explanation": "Theorems: fastcommit_order_sorted (ascending (owner,index) call order for every write set and fault plan), lt_strict_total, fastcommit_schedule_invariant (any worker count, any finishing schedule = sequential), nondet_commit_same_final_ledger (same ledger, call multiset equal), source_premises (worker closures write-free, pools reset before Put; regenerated); byte level (SlabIdB.*): SlabID.Compare = the numeric (owner,index) order the model sorts by, the comparator of sortedOwnedDeltaKeys is that same order, the byte-level sorted key list maps exactly onto the model's. Oracle: byte-identical registers, identical observations and ordered call logs across all configurations and a fresh process.",
     },
     "C08": {
         "streams": ["cache", "compact", "storage"], "driver": {"storage": "storage"}, "level": "proof",
@@ -173,9 +173,9 @@ PROPS = {
         "explanation": "Theorems: health_sound / health_complete (check accepts exactly the Healthy heaps and returns the true roots), four corruption theorems, allrefs_exact. Tie: every heap dumped from the real storage is checked by the model and the outcome compared with CheckStorageHealth / GetAllChildReferences. Oracle: an independent graph walker in Go.",
     },
     "C15": {
-        "streams": ["storage", "storageexh"], "driver": {"storage": "storage", "storageexh": "storage"}, "level": "proof",
+        "streams": ["storage", "storageexh", "slabid"], "driver": {"storage": "storage", "storageexh": "storage", "slabid": "slabid"}, "level": "proof",
         "trusted_base": LEAN_TB, "assumptions": STORAGE_ASSUME,
-        "rule": "random op sequences (store/remove/retrieve/retrieve-if-loaded/cache-bypassing retrieve/both commits with fault plans/drop deltas/drop cache/preload/re-create/external corruption) over 4-15 identifiers incl. a temporary-address one; PLUS bounded-exhaustive: every sequence of length 4 (thorough: 5) over a 22-operation alphabet on two identifiers (one owned, one temporary), two versions, both commits with and without a fault; distinct = distinct op-kind strings / sequences",
+        "rule": "random op sequences (store/remove/retrieve/retrieve-if-loaded/cache-bypassing retrieve/both commits with fault plans/drop deltas/drop cache/preload/re-create/external corruption) over 4-15 identifiers incl. a temporary-address one; PLUS bounded-exhaustive: every sequence of length 4 (thorough: 5) over a 22-operation alphabet on two identifiers (one owned, one temporary), two versions, both commits with and without a fault; slabid: LedgerBaseStorage over a map ledger (keeping / deleting empty registers, injected faults), InMemBaseStorage and BasicSlabStorage incl. its iterator, 120 programs of requests compared with their byte-level models; distinct = distinct op-kind strings / sequences",
         "explanation": "Theorems: storage state machine refines the write-back overlay spec for every op sequence (inv_reachable, step_refines, ...). Tie: model replayed against PersistentSlabStorage on every trace line (observations, ledger call logs, where each id is served from, counters). Oracle: Go-map overlay.",
     },
     "C13": {
